@@ -5,7 +5,7 @@ SPEC = {
     "translators": ["gen_prec"],
     "bins": ["c02"],
     "model_targets": ["Cond/Check.vo"],
-    "proof_targets": ["Cond/SemProofs.vo", "Cond/RuleSetProofs.vo", "Cond/PrecProofs.vo", "Cond/QuirksProofs.vo"],
+    "proof_targets": ["Cond/SemProofs.vo", "Cond/RuleSetProofs.vo", "Cond/PrecProofs.vo", "Cond/QuirksProofs.vo", "Cond/MachineProofs.vo"],
     "assumptions": [
         "the meaning of conditions is the evaluator coq/Cond/Sem.v, hand-written from conditions.md / undefined_values.md / global_and_private.md; where these are silent it follows the implementation and says [undocumented] (64-bit wrap-around, truncated division, shift counts >= 64 / negative, P% = ceil(n*P/100), empty or undefined ranges make a for..in false, lexicographic string order, anchors of an `of` evaluated per item)",
         "floats, regular expressions (`matches`), modules, arrays/maps, .len(), int-as-bool casts, `bool == integer`, KB/MB suffixes, non-ASCII strings are not generated and not modelled",
@@ -30,6 +30,7 @@ RULE = ("rule sets of 1-25 rules in 1-3 namespaces with global/private flags and
 # what Check.explain answers for a failing case; none of these is a known finding any more
 FINGERPRINTS = {
     5: "C02:regression:lazy-pattern-search-skipped(verdicts-change-when-the-search-is-forced)",
+    9: "C02:emitted-code-model(Cond/Emit.v on Cond/Machine.v)-differs-from-documented-meaning",
     8: "C02:verdict-with-forced-pattern-search-differs-from-documented-meaning",
 }
 
